@@ -740,11 +740,18 @@ func (t *Tree) Compile(file string, args []string, out io.Writer) (err error) {
 					properties[i].s = set.NewSet()
 				}
 				for i, element := range n.Iterator2() {
-					consumes, properties[i].s = optimizeAlternates(element)
+					var elementConsumes bool
+					elementConsumes, properties[i].s = optimizeAlternates(element)
+					consumes = consumes && elementConsumes
 					s = s.Union(properties[i].s)
 				}
 
 				if firstPass {
+					break
+				}
+
+				/* an alternative that can succeed without consuming can't be selected by its first character */
+				if !consumes {
 					break
 				}
 
